@@ -55,6 +55,7 @@ class HRoot:
     items: list[QName] = field(default_factory=list, metadata={"type": "Element", "name": "q", "wrapper": "wrap"})
     kid: Optional[HKid] = field(default=None, metadata={"type": "Element"})
     u: Optional[Union[HUa, HUb]] = field(default=None, metadata={"type": "Element"})     # a union-typed middle (4 levels)
+    anything: list[object] = field(default_factory=list, metadata={"type": "Wildcard", "namespace": "##any"})   # middle kind wildModel
 
 
 @dataclass
@@ -107,6 +108,10 @@ def scoping_doc(levels, prefix: str, decoys: bool = False) -> str:
     the expected values are those of the document without decoys."""
     mid = "wrap" if levels[1]["kind"] == "wrapper" else "kid"
     val = f"{prefix}:x" if prefix else "x"
+    if levels[1]["kind"] == "wildModel":
+        # the middle element is captured by a wildcard and bound to the class the context knows by its qualified name
+        return (f'<m:HRoot xmlns:m="{NS_M}"{decl_text(levels[0]["decls"])}><m:HKid{decl_text(levels[1]["decls"])}>'
+                f'<m:q{decl_text(levels[2]["decls"])}>{val}</m:q></m:HKid></m:HRoot>')
     if levels[1]["kind"] == "union":
         return (f'<m:HRoot xmlns:m="{NS_M}"{decl_text(levels[0]["decls"])}><m:u{decl_text(levels[1]["decls"])}>'
                 f'<m:inner{decl_text(levels[2]["decls"])}><m:q>{val}</m:q></m:inner></m:u></m:HRoot>')
@@ -123,6 +128,8 @@ def scoping_doc(levels, prefix: str, decoys: bool = False) -> str:
 def leaf_value(obj):
     if obj.items:
         return obj.items[0]
+    if obj.anything:
+        return getattr(obj.anything[0], "q", None)
     if obj.u is not None:
         return obj.u.inner.q if getattr(obj.u, "inner", None) else None
     return obj.kid.q if obj.kid else None
